@@ -101,6 +101,12 @@ def cases(draw, only=None):
     which = draw(st.sampled_from(['conjunction_implies_nth', 'or_move_to_front', 'and_move_to_front', 'reduce_n', 'merge_clauses', 'trivial_clause']))
     n = draw(st.integers(1, 3))  # proofs grow explosively with the number of terms (n = 5 takes minutes)
     terms = [S.draw_arg_pattern(draw, CFG, draw(st.integers(0, 1))) for _ in range(n)]
+    # operands that themselves have the shape of the lemma's connective (written with the notation or unfolded)
+    if which in ('conjunction_implies_nth', 'merge_clauses') and draw(st.booleans()):
+        # (proofs of the move-to-front family grow too fast for compound operands; they keep plain ones)
+        i = draw(st.sampled_from([n - 1, draw(st.integers(0, n - 1))]))
+        x, y = S.draw_arg_pattern(draw, CFG, 0), S.draw_arg_pattern(draw, CFG, 0)
+        terms[i] = draw(st.sampled_from([S.And(x, y), S.Or(x, y), S.Neg(S.I(x, S.Neg(y))), S.I(S.Neg(x), y), S.Neg(x)]))
     c = {'kind': 'param', 'which': which, 'terms': terms}
     if which == 'conjunction_implies_nth':
         c['n'] = draw(st.integers(0, n - 1))
